@@ -780,6 +780,7 @@ pub struct ConsumerProbe {
     fold: Vec<NodeId>,
     rfold: Vec<NodeId>,
     for_each: Vec<NodeId>,
+    clone_alt: Vec<NodeId>,
     nth: Vec<Option<NodeId>>,
     nth_back: Vec<Option<NodeId>>,
     hint: (usize, Option<usize>),
@@ -788,7 +789,7 @@ pub struct ConsumerProbe {
 impl ConsumerProbe {
     pub fn all_at<I, F>(mk: F, f: usize, b: usize) -> ConsumerProbe
     where
-        I: DoubleEndedIterator<Item = NodeId>,
+        I: DoubleEndedIterator<Item = NodeId> + Clone,
         F: Fn() -> I,
     {
         let at = || {
@@ -815,6 +816,19 @@ impl ConsumerProbe {
                 v
             }),
             for_each: fe,
+            clone_alt: {
+                // a clone taken now, pulled alternately from both ends
+                let it = at();
+                let mut c = it.clone();
+                let mut v = Vec::new();
+                for k in 0..64 {
+                    match if k % 2 == 0 { c.next() } else { c.next_back() } {
+                        Some(x) => v.push(x),
+                        None => break,
+                    }
+                }
+                v
+            },
             nth: (0..4).map(|k| at().nth(k)).collect(),
             nth_back: (0..4).map(|k| at().nth_back(k)).collect(),
             hint: at().size_hint(),
@@ -833,6 +847,25 @@ impl ConsumerProbe {
         }
         if self.for_each != rest {
             return Some(format!("for_each() visits [{}]", ids_txt(&self.for_each)));
+        }
+        {
+            // alternate pulls: first, last, second, last-but-one, …
+            let mut want = Vec::new();
+            let (mut i, mut jx) = (0usize, rest.len());
+            let mut k = 0;
+            while i < jx {
+                if k % 2 == 0 {
+                    want.push(rest[i]);
+                    i += 1;
+                } else {
+                    jx -= 1;
+                    want.push(rest[jx]);
+                }
+                k += 1;
+            }
+            if self.clone_alt != want {
+                return Some(format!("a clone pulled alternately from both ends yields [{}]", ids_txt(&self.clone_alt)));
+            }
         }
         if self.rfold != rev {
             return Some(format!("rfold() visits [{}]", ids_txt(&self.rfold)));
